@@ -194,8 +194,7 @@ def isPosKey (s : Storage) : Prop := s.kind = .V ∧ s.ty = .vec3d ∧ s.name = 
 
 /-- the storages an operation addresses directly through a user handle -/
 def Op.operated (w : World) : Op → List Nat
-  | .setName h _ | .write h .. | .hcopy h _ | .hmove h _ | .hdrop h
-  | .setShared _ h _ | .setPersistent _ h _ => (hget w h).toList
+  | .setName h _ | .write h .. | .hcopy h _ | .hmove h _ | .hdrop h => (hget w h).toList
   | _ => []
 
 end OVM.Registry
